@@ -43,7 +43,7 @@ def run(ctx):
     thorough = ctx.tier == "thorough"
     cases = ctx.path("filter-cases.ndjson")
     g = ctx.tlc("Filter", "SPECIFICATION Spec\nCONSTANTS\n  OutFile = \"%s\"\n  Depth = %d\nPOSTCONDITION Emit\nCHECK_DEADLOCK FALSE\n" % (cases, 2 if thorough else 1),
-                "filter", workers=4, timeout=1800)
+                "filter", workers=4, timeout=3000)
     if g["status"] != "ok":
         raise Infra("Filter.tla failed (%s)" % g["status"])
     st, counts = judge(ctx, cases, "all")
